@@ -2,7 +2,7 @@
    LLParser.parse on a TEXT, end to end: the tokenizer (C04/Model.v: pattern
    alternatives, span tokens, synonyms, keywords), the skip_tokens filter of
    parse() (llparser.py 1646-1649) and the main loop (LLP/Parse.v); the optional
-   per-call start symbol (1639-1643); sessions: one parser object used for a
+   per-call start symbol (1646-1653); sessions: one parser object used for a
    sequence of parse() calls, a second parser made from the same productions.
    The model is a pure function, so it has no state between calls: whatever the
    implementation keeps between calls must not be observable.
@@ -29,12 +29,17 @@ Definition build_cfg (cfg : lexcfg) (skip : option (list sym))
   if negb (subset (skip_set terminals skip) terminals) then Err OtherErr else
   build ug terminals smart start.
 
-(* parse(text, start_symbol_name=s): the assertion  s in self.prods_map , None = the constructor's *)
+(* parse(text, start_symbol_name=s): the two assertions in the order of the code (1646-1651, the second one
+   since /repo 2909322):  s in self.prods_map , then  '__' not in s  (both AssertionError);
+   None = the constructor's start symbol *)
+Definition start_ok (p : parser) (s : sym) : bool :=
+  if mem s (gkeys (p_grammar p)) then negb (has_dunder s) else false.
+
 Definition parse_at (p : parser) (fuel : nat) (toks : list token) (s : option sym) : res tree :=
   match s with
   | None => p_parse p fuel toks
   | Some s =>
-      if mem s (gkeys (p_grammar p))
+      if start_ok p s
       then parse (fun x => mem x (p_terminals p)) (table_get (p_tables p)) (p_sfxs p) toks fuel s
       else Err AssertErr
   end.
@@ -51,7 +56,7 @@ Definition text_tokens (cfg : lexcfg) (skip : list sym) (text : list Z) : res (l
 Definition parse_text (cfg : lexcfg) (skip : list sym) (p : parser) (fuel : nat) (text : list Z)
     (s : option sym) : res tree :=
   match s with
-  | Some s' => if mem s' (gkeys (p_grammar p)) then
+  | Some s' => if start_ok p s' then
                  bind (text_tokens cfg skip text) (fun toks => parse_at p fuel toks s)
                else Err AssertErr
   | None => bind (text_tokens cfg skip text) (fun toks => parse_at p fuel toks s)
@@ -95,7 +100,7 @@ Definition s_call (tk : option (lexcfg * option (list sym))) (p : parser) (fuel 
   | None => Err OtherErr
   | Some src =>
       match snd c with
-      | Some s' => if mem s' (gkeys (p_grammar p)) then
+      | Some s' => if start_ok p s' then
                      bind (s_tokens tk src) (fun toks => parse_at p fuel toks (snd c))
                    else Err AssertErr
       | None => bind (s_tokens tk src) (fun toks => parse_at p fuel toks None)
